@@ -275,3 +275,65 @@ class BatchCopies:
             if case["how"] != "clone":
                 g1[0].center_(123.0)
                 K.ensure("independent-grid", E.bconst(not (g1[0] == g0[0])), text="C15: deep copies are independent in both directions [grid]")
+
+
+@register
+class CollateSamples:
+    """collate_samples(): samples whose fields are images / flow fields (single or batches of several, each with its own
+    grid) are collated into batches that carry one grid per image, entry i the grid (and representation) of the image it
+    holds; provenance of the data is symbolic (variable names), as in BatchGridBookkeeping."""
+
+    target = "deepali.data.collate:collate_samples"
+    properties = ("C19",)
+
+    def cases(self, tier):
+        for field in ("Image", "ImageBatch", "FlowField", "FlowFields"):
+            for sizes in ((1, 1), (2, 1), (1, 2)):
+                if field in ("Image", "FlowField") and sizes != (1, 1):
+                    continue
+                yield {"field": field, "images_per_sample": list(sizes)}
+
+    def run(self, case, K):
+        from deepali.core.grid import Axes, Grid
+        from deepali.data import FlowField, FlowFields, Image, ImageBatch
+        from deepali.data.collate import collate_samples
+
+        flow = case["field"].startswith("Flow")
+        C = 2 if flow else 1
+        total = sum(case["images_per_sample"])
+        grids = [Grid(size=SHAPE[::-1], spacing=(1 + k, 2 + k), center=(10 * k, -5 * k)) for k in range(total)]
+        samples, k = [], 0
+        for n in case["images_per_sample"]:
+            vals = np.empty((n, C) + SHAPE, dtype=object)
+            for i in range(n):
+                vals[i] = K.reals(f"v{k + i}", (C,) + SHAPE, lo=Fraction(1, 10), hi=Fraction(9, 10))
+            data = K.tensor(vals)
+            gs = grids[k : k + n]
+            if case["field"] == "Image":
+                obj = Image(data[0], gs[0])
+            elif case["field"] == "FlowField":
+                obj = FlowField(data[0], gs[0], Axes.WORLD)
+            elif case["field"] == "FlowFields":
+                obj = FlowFields(data, gs, Axes.WORLD)
+            else:
+                obj = ImageBatch(data, gs)
+            samples.append({"x": obj, "label": torch.tensor(k)})
+            k += n
+        out = K.call(collate_samples, samples)
+        if not K.ensure_returns(out, text=Q19):
+            return
+        res = out["x"]
+        K.ensure("type", E.bconst(isinstance(res, FlowFields if flow else ImageBatch)), text=Q19 + " [collated into a batch type]")
+        rg = list(res.grids())
+        K.ensure("one-grid-per-entry", E.bconst(len(rg) == res.shape[0] == total), text=Q19 + " [one grid per batch entry]")
+        if len(rg) != res.shape[0]:
+            return
+        data = res.tensor()
+        for i in range(res.shape[0]):
+            src = provenance(K, K.val(data[i]), nb=total) if K.mode == "sym" else {i}
+            if len(src) == 1:
+                j = next(iter(src))
+                K.ensure(f"grid-of-source[{i}]", E.bconst(bool(rg[i] == grids[j]) and all(not (rg[i] == grids[o]) for o in range(total) if o != j)),
+                         text=Q19 + f" [entry {i} holds the data of image {j} and carries its grid]")
+        if flow:
+            K.ensure("axes", E.bconst(res.axes() == Axes.WORLD), text=Q19 + " [vector representation kept]")
